@@ -213,6 +213,10 @@ Definition setSocks (s : sstate) (l : list (Z * ssock)) : sstate :=
 Definition same_id (b : sbind) (id : tid) : bool :=
   (b_port b =? lport id) && addr_eqb (b_laddr b) (laddr id) && (b_rport b =? rport id) && addr_eqb (b_raddr b) (raddr id).
 
+Definition filter_ok (s : sstate) (nicid : Z) (dst : addr) : bool :=
+  memNA (nicid, dst) (ss_addrs s) || memZ nicid (ss_promisc s)
+  || existsb (fun x => let '(n, a, m) := x in (n =? nicid) && sn_has (a, m) dst) (ss_subnets s).
+
 (* bookkeeping for a call that returned [err] *)
 Definition spec_op (s : sstate) (o : op) (err : Z) (la : addr) (lp : Z) : sstate :=
   if negb (err =? 0) then s else
@@ -234,7 +238,17 @@ Definition spec_op (s : sstate) (o : op) (err : Z) (la : addr) (lp : Z) : sstate
           (* tcp Bind: boundNICID = CheckLocalAddress(addr.NIC, ...): a bind that names a NIC and
              succeeded is pinned to THAT NIC (which may hold the address only through promiscuous
              mode or a subnet); without a NIC it is the NIC owning the address *)
-          let k' := mkS (k_kind k) (k_net k) nicid a port (if nicid =? 0 then owner_of s a else nicid) 1 in
+          (* ... and when several NICs would accept the address (own address on one, promiscuous mode
+             or a covering subnet on another) CheckLocalAddress(0, ...) returns whichever NIC Go's map
+             iteration visits first: the pin is then unknown to the monitor (-1) *)
+          let k' := mkS (k_kind k) (k_net k) nicid a port
+                        (if nicid =? 0
+                         then match filter (fun n => filter_ok s n a) [1; 2] with
+                              | [n] => n
+                              | [] => owner_of s a
+                              | _ => -1
+                              end
+                         else nicid) 1 in
           let s1 := setSocks s (ssput (ss_socks s) i k') in
           if k_kind k =? UDP then
             let nets := if (k_net k =? IPv6) && isNil a then [IPv6; IPv4] else [k_net k] in
@@ -295,10 +309,6 @@ Fixpoint best (bs : list sbind) (cur : option sbind) : option sbind :=
   | b :: bs' => best bs' (match cur with None => Some b | Some c => if prec c <? prec b then Some b else Some c end)
   end.
 
-Definition filter_ok (s : sstate) (nicid : Z) (dst : addr) : bool :=
-  memNA (nicid, dst) (ss_addrs s) || memZ nicid (ss_promisc s)
-  || existsb (fun x => let '(n, a, m) := x in (n =? nicid) && sn_has (a, m) dst) (ss_subnets s).
-
 Definition spec_pkt (s : sstate) (nicid net : Z) (src dst : addr) (trans sport dport flags : Z)
            (acc : bool) (got : list Z) (tcpin : bool) (reply : Z) (quiet panicked : bool) : Z :=
   if panicked || negb quiet then 1
@@ -311,8 +321,8 @@ Definition spec_pkt (s : sstate) (nicid net : Z) (src dst : addr) (trans sport d
     let lingering := negb (filter_ok s nicid dst) in
     if lingering && negb (memNA (nicid, dst) (ss_held s)) then 1
     else
-      let verdict :=
-        match best (filter (fun b => candidate b nicid net src dst trans sport dport) (ss_binds s)) None with
+      let verdict_of (bs : list sbind) :=
+        match best (filter (fun b => candidate b nicid net src dst trans sport dport) bs) None with
         | Some b =>
             if (b_trans b =? TCP) && (b_sock b <? 100) then
               (* a listening tcp socket: it takes the segment and answers a SYN with a SYN-ACK from the destination *)
@@ -332,6 +342,12 @@ Definition spec_pkt (s : sstate) (nicid net : Z) (src dst : addr) (trans sport d
             | _ => 1
             end
         end in
+      (* a listener whose pin is unknown (-1) may or may not be registered on this NIC: both
+         readings are acceptable *)
+      let as_any := map (fun b => if b_pin b =? -1 then mkB (b_sock b) (b_trans b) (b_nets b) 0 (b_port b) (b_laddr b) (b_rport b) (b_raddr b) else b) (ss_binds s) in
+      let without := filter (fun b => negb (b_pin b =? -1)) (ss_binds s) in
+      let v1 := verdict_of as_any in
+      let verdict := if v1 =? 0 then 0 else verdict_of without in
       if verdict =? 0 then (if lingering then 2 else 0) else verdict.
 
 Definition worse (a b : Z) : Z := if a =? 1 then 1 else if b =? 1 then 1 else Z.max a b.
